@@ -10,6 +10,8 @@ open Bufr.Spec
 def encV (s : St) : List Val := (curVals s).take s.idx
 /-- the value index does not exceed the number of values supplied -/
 def encX (s : St) : Prop := s.idx ≤ (curVals s).length
+/-- ... and the values supplied for the first subset are `vs` -/
+def encXv (vs : List Val) (s : St) : Prop := encX s ∧ curVals s = vs
 
 theorem encV_setRegs (s : St) (f : Regs → Regs) : encV (s.setRegs f) = encV s := rfl
 theorem encV_addLink (s : St) (o : Nat) : encV (addLink s o) = encV s := rfl
@@ -28,6 +30,17 @@ theorem EncStep.encV {s s' : St} {dd : DDesc} {v : Val} (h : EncStep s s' dd v) 
   have := h.val
   unfold curVals at this
   rw [this]; rfl
+
+theorem EncStep.encXv {s s' : St} {dd : DDesc} {v : Val} (h : EncStep s s' dd v) (vs : List Val) :
+    encXv vs s → encXv vs s' := by
+  intro hx
+  refine ⟨?_, ?_⟩
+  · unfold C07.encX curVals
+    rw [h.vals, h.idx]
+    have := (List.getElem?_eq_some_iff.mp h.val).1
+    unfold curVals at this
+    omega
+  · unfold curVals; rw [h.vals]; exact hx.2
 
 theorem EncStep.encX {s s' : St} {dd : DDesc} {v : Val} (h : EncStep s s' dd v) : encX s → encX s' := by
   intro _
@@ -154,12 +167,12 @@ theorem same_of_step {s s' : St} {dd : DDesc} {v : Val} (h : EncStep s s' dd v) 
   ⟨h.descs, h.links, hr⟩
 
 theorem encLastValues_spec (k : Nat) (s : St) (l : List Val) (h : encLastValues k s = .ok l) (_hk : 1 ≤ k)
-    (_hl : k ≤ (encV s).length) (hx : encX s) : l = Spec.lastN k (encV s) := by
+    (_hl : k ≤ (encV s).length) (vs : List Val) (hx : encXv vs s) : l = Spec.lastN k (encV s) := by
   unfold encLastValues at h
   injection h with h
   subst h
   unfold Spec.lastN C07.encV
-  rw [List.length_take, Nat.min_eq_left hx]
+  rw [List.length_take, Nat.min_eq_left hx.1]
 
 theorem encPrimsU_quiet : Quiet encPrimsU where
   numeric := fun dd n sc r s s' h => let ⟨_, a, b⟩ := encNumericU_step dd n sc r s s' h; same_of_step a b
@@ -167,24 +180,24 @@ theorem encPrimsU_quiet : Quiet encPrimsU where
   codeflag := fun dd n s s' h => let ⟨_, a, b⟩ := encCodeflagU_step dd n s s' h; same_of_step a b
   constant := fun dd c s s' h => let ⟨_, a, b⟩ := encConstantU_step dd c s s' h; same_of_step a b
 
-theorem encPrimsU_rec : Rec encPrimsU encV encX where
+theorem encPrimsU_rec (vs : List Val) : Rec encPrimsU encV (encXv vs) where
   quiet := encPrimsU_quiet
   numeric := fun dd n sc r s s' h => let ⟨v, a, _⟩ := encNumericU_step dd n sc r s s' h; ⟨v, a.encV⟩
   string := fun dd n s s' h => let ⟨v, a, _⟩ := encStringU_step dd n s s' h; ⟨v, a.encV⟩
   codeflag := fun dd n s s' h => let ⟨v, a, _⟩ := encCodeflagU_step dd n s s' h; ⟨v, a.encV⟩
   constant := fun dd c s s' h => let ⟨v, a, _⟩ := encConstantU_step dd c s s' h; ⟨v, a.encV⟩
   newRefval := fun e n s s' h => let ⟨v, a⟩ := encNewRefvalU_step e n s s' h; ⟨a.descs, v, a.encV⟩
-  lastValues := encLastValues_spec
+  lastValues := fun k s l h hk hl hx => encLastValues_spec k s l h hk hl vs hx
   numericL := fun dd n sc r s s' h => let ⟨_, a, _⟩ := encNumericU_step dd n sc r s s' h; by rw [a.vals]
   stringL := fun dd n s s' h => let ⟨_, a, _⟩ := encStringU_step dd n s s' h; by rw [a.vals]
   codeflagL := fun dd n s s' h => let ⟨_, a, _⟩ := encCodeflagU_step dd n s s' h; by rw [a.vals]
   constantL := fun dd c s s' h => let ⟨_, a, _⟩ := encConstantU_step dd c s s' h; by rw [a.vals]
   newRefvalL := fun e n s s' h => let ⟨_, a⟩ := encNewRefvalU_step e n s s' h; by rw [a.vals]
-  numericX := fun dd n sc r s s' h => let ⟨_, a, _⟩ := encNumericU_step dd n sc r s s' h; a.encX
-  stringX := fun dd n s s' h => let ⟨_, a, _⟩ := encStringU_step dd n s s' h; a.encX
-  codeflagX := fun dd n s s' h => let ⟨_, a, _⟩ := encCodeflagU_step dd n s s' h; a.encX
-  constantX := fun dd c s s' h => let ⟨_, a, _⟩ := encConstantU_step dd c s s' h; a.encX
-  newRefvalX := fun e n s s' h => let ⟨_, a⟩ := encNewRefvalU_step e n s s' h; a.encX
+  numericX := fun dd n sc r s s' h => let ⟨_, a, _⟩ := encNumericU_step dd n sc r s s' h; a.encXv vs
+  stringX := fun dd n s s' h => let ⟨_, a, _⟩ := encStringU_step dd n s s' h; a.encXv vs
+  codeflagX := fun dd n s s' h => let ⟨_, a, _⟩ := encCodeflagU_step dd n s s' h; a.encXv vs
+  constantX := fun dd c s s' h => let ⟨_, a, _⟩ := encConstantU_step dd c s s' h; a.encXv vs
+  newRefvalX := fun e n s s' h => let ⟨_, a⟩ := encNewRefvalU_step e n s s' h; a.encXv vs
   setRegs := encV_setRegs
   addLink := encV_addLink
   setRegsX := fun _ _ x => x
